@@ -4407,23 +4407,31 @@ pub(crate) fn truncate_to_height_internal<P: consensus::Parameters>(
             truncation_height,
             rescan_floor,
         )? {
-            TreeTruncation::ToCheckpoint => wdb.with_sapling_tree_mut(|tree| {
-                let truncated =
-                    tree.truncate_to_checkpoint(&truncation_height)
-                        .map_err(|error| SqliteClientError::TruncateCommitmentTree {
-                            pool: ShieldedPool::Sapling,
-                            height: truncation_height,
-                            error,
-                        })?;
-                if truncated {
-                    Ok(())
-                } else {
-                    Err(SqliteClientError::CorruptedData(format!(
-                        "the Sapling note commitment tree reported no checkpoint at height \
-                         {truncation_height} to truncate to"
-                    )))
-                }
-            })?,
+            TreeTruncation::ToCheckpoint => {
+                wdb.with_sapling_tree_mut(|tree| {
+                    let truncated =
+                        tree.truncate_to_checkpoint(&truncation_height)
+                            .map_err(|error| SqliteClientError::TruncateCommitmentTree {
+                                pool: ShieldedPool::Sapling,
+                                height: truncation_height,
+                                error,
+                            })?;
+                    if truncated {
+                        Ok(())
+                    } else {
+                        Err(SqliteClientError::CorruptedData(format!(
+                            "the Sapling note commitment tree reported no checkpoint at height \
+                             {truncation_height} to truncate to"
+                        )))
+                    }
+                })?;
+                commitment_tree::clear_truncated_node_values::<
+                    ::sapling::Node,
+                    { ::sapling::NOTE_COMMITMENT_TREE_DEPTH },
+                    SAPLING_SHARD_HEIGHT,
+                >(conn, crate::SAPLING_TABLES_PREFIX, truncation_height)
+                .map_err(|e| SqliteClientError::from(ShardTreeError::Storage(e)))?
+            }
             TreeTruncation::Unaffected => (),
             TreeTruncation::ResetToSubtreeRoots => {
                 commitment_tree::truncate_tree_to_subtree_roots::<
@@ -4455,23 +4463,31 @@ pub(crate) fn truncate_to_height_internal<P: consensus::Parameters>(
             truncation_height,
             rescan_floor,
         )? {
-            TreeTruncation::ToCheckpoint => wdb.with_orchard_tree_mut(|tree| {
-                let truncated =
-                    tree.truncate_to_checkpoint(&truncation_height)
-                        .map_err(|error| SqliteClientError::TruncateCommitmentTree {
-                            pool: ShieldedPool::Orchard,
-                            height: truncation_height,
-                            error,
-                        })?;
-                if truncated {
-                    Ok(())
-                } else {
-                    Err(SqliteClientError::CorruptedData(format!(
-                        "the Orchard note commitment tree reported no checkpoint at height \
-                         {truncation_height} to truncate to"
-                    )))
-                }
-            })?,
+            TreeTruncation::ToCheckpoint => {
+                wdb.with_orchard_tree_mut(|tree| {
+                    let truncated =
+                        tree.truncate_to_checkpoint(&truncation_height)
+                            .map_err(|error| SqliteClientError::TruncateCommitmentTree {
+                                pool: ShieldedPool::Orchard,
+                                height: truncation_height,
+                                error,
+                            })?;
+                    if truncated {
+                        Ok(())
+                    } else {
+                        Err(SqliteClientError::CorruptedData(format!(
+                            "the Orchard note commitment tree reported no checkpoint at height \
+                             {truncation_height} to truncate to"
+                        )))
+                    }
+                })?;
+                commitment_tree::clear_truncated_node_values::<
+                    ::orchard::tree::MerkleHashOrchard,
+                    { ::orchard::NOTE_COMMITMENT_TREE_DEPTH as u8 },
+                    ORCHARD_SHARD_HEIGHT,
+                >(conn, crate::ORCHARD_TABLES_PREFIX, truncation_height)
+                .map_err(|e| SqliteClientError::from(ShardTreeError::Storage(e)))?
+            }
             TreeTruncation::Unaffected => (),
             TreeTruncation::ResetToSubtreeRoots => {
                 commitment_tree::truncate_tree_to_subtree_roots::<
@@ -4521,6 +4537,12 @@ pub(crate) fn truncate_to_height_internal<P: consensus::Parameters>(
                         )))
                     }
                 })?;
+                commitment_tree::clear_truncated_node_values::<
+                    ::orchard::tree::MerkleHashOrchard,
+                    { ::orchard::NOTE_COMMITMENT_TREE_DEPTH as u8 },
+                    IRONWOOD_SHARD_HEIGHT,
+                >(conn, crate::IRONWOOD_TABLES_PREFIX, truncation_height)
+                .map_err(|e| SqliteClientError::from(ShardTreeError::Storage(e)))?
             }
             TreeTruncation::Unaffected => (),
             TreeTruncation::ResetToSubtreeRoots => {
